@@ -196,6 +196,8 @@ def run(ctx):
     ctx.explanation = __doc__
     ctx.rule = "instances = 3 operators × (12 collection cases, evaluation sites with provenance, shape facts); non-trivial = variant specialisation, provenance, dominance"
     ctx.trusted = ["std adaptor models of rules/prov.py", "C06 for the truthiness table", "C04 for 'no element is parsed'"]
+    from . import manifest as _MF
+    _MF.same_library_clause(ctx, "K4.number-model")
     cfgs = ["default"] if ctx.tier == "quick" else ["default", "python", "wasm"]
     for cfg in cfgs:
         facts = ctx.facts(cfg)
